@@ -5,19 +5,19 @@
 // (newBoltArbitratorLog) on a real bbolt file wrapped by verifmc/crashdb.
 //
 // What the harness owns (all through exported config fields / interfaces):
-//   * the chain: a tiny block chain + mempool model. A ChainNotifier with historical
+//   - the chain: a tiny block chain + mempool model. A ChainNotifier with historical
 //     dispatch (a spend registered after the fact is answered from the chain), a
 //     sweeper that keeps offered inputs in memory (lost on a crash), publishes a
 //     deterministic one-input transaction once the input is mature, and reports the
 //     result; PublishTx; the chain watcher's close event (delivered when the funding
 //     output is spent and re-delivered after a restart while the channel is not yet
 //     marked closed in the database - what lnd's chain watcher does);
-//   * everything lnd writes outside the arbitrator log but into the same channel.db
+//   - everything lnd writes outside the arbitrator log but into the same channel.db
 //     (MarkChannelClosed, MarkCommitmentBroadcasted, MarkBorked, the switch's
 //     resolution-message store, final HTLC outcomes, resolver reports, the witness
 //     cache, MarkChanFullyClosed): each is one write transaction on the *same*
 //     crashdb-wrapped backend, so it is a crash point and survives a restart;
-//   * "ChainArbitrator": startNode() builds the arbitrator exactly as
+//   - "ChainArbitrator": startNode() builds the arbitrator exactly as
 //     newActiveChannelArbitrator / loadPendingCloseChannels do (open channel: HTLC
 //     sets, Channel, chain events; pending close: IsPendingClose, CloseType,
 //     ClosingHeight, empty ChainEventSubscription, nothing else), and the
@@ -41,13 +41,13 @@ package contractcourt
 
 import (
 	"context"
-	"io"
 	"crypto/sha256"
 	"encoding/binary"
 	"encoding/hex"
 	"encoding/json"
 	"errors"
 	"fmt"
+	"io"
 	"os"
 	"path/filepath"
 	"reflect"
@@ -175,14 +175,14 @@ func (s *c13Scn) onCommit(h c13HTLC, k string) bool {
 // ---------------------------------------------------------------------------
 
 type c13CrashInfo struct {
-	K        int64    `json:"k"`        // commits allowed since the (re)start of the node
-	Abs      int64    `json:"abs"`      // absolute index of the last committed write
-	Label    string   `json:"label"`    // which write that was
-	State    string   `json:"state"`    // arbitrator state on disk at the restart
-	Mode     string   `json:"mode"`     // how the node restarted: open | pending-close | gone
-	Height   int32    `json:"height"`   // chain height at the crash
-	Resolver []string `json:"resolver"` // unresolved contracts on disk at the restart
-	CommitSet bool    `json:"commit_set"` // a confirmed commit set is on disk at the restart
+	K         int64    `json:"k"`          // commits allowed since the (re)start of the node
+	Abs       int64    `json:"abs"`        // absolute index of the last committed write
+	Label     string   `json:"label"`      // which write that was
+	State     string   `json:"state"`      // arbitrator state on disk at the restart
+	Mode      string   `json:"mode"`       // how the node restarted: open | pending-close | gone
+	Height    int32    `json:"height"`     // chain height at the crash
+	Resolver  []string `json:"resolver"`   // unresolved contracts on disk at the restart
+	CommitSet bool     `json:"commit_set"` // a confirmed commit set is on disk at the restart
 }
 
 // c13Obs is everything the oracle looks at.
@@ -193,7 +193,7 @@ type c13Obs struct {
 	Labels     []string            `json:"labels,omitempty"`
 	FinalState string              `json:"final_state"`
 	Left       []string            `json:"left_unresolved,omitempty"` // unresolved-contract bucket at the end
-	Closed     string              `json:"closed"` // close type recorded by MarkChannelClosed
+	Closed     string              `json:"closed"`                    // close type recorded by MarkChannelClosed
 	FullyDone  bool                `json:"fully_closed"`
 	Msgs       map[string][]string `json:"msgs"`   // out<i> -> {settle, fail}
 	Finals     map[string][]string `json:"finals"` // in<i>  -> {settled, failed}
@@ -457,9 +457,9 @@ type c13World struct {
 
 	// mu makes every interaction of the node with the outside atomic with respect
 	// to the crash instant.
-	mu      sync.Mutex
-	crashed atomic.Bool
-	never   chan struct{}
+	mu       sync.Mutex
+	crashed  atomic.Bool
+	never    chan struct{}
 	crashAt  int64 // absolute commit index after which the node stops; 0: not armed
 	lastBase int64 // commits at the time the current crash was armed
 	lastArm  int64
